@@ -35,6 +35,18 @@ func Yield(site string, obj uintptr) {
 	S.park(&Op{Kind: OpYield, Site: site, Obj: obj})
 }
 
+// Yield2 is a scheduling point before an operation touching two objects.
+func Yield2(site string, obj, obj2 uintptr) {
+	if !Active() {
+		return
+	}
+	S.park(&Op{Kind: OpYield, Site: site, Obj: obj, Obj2: obj2})
+}
+
+// CtxObj is the object identity shared by all context cancellations; code
+// that polls a context's state without a channel operation yields on it.
+const CtxObj = 2
+
 // YieldPC is Yield with the site taken from the caller's caller.
 func YieldPC(obj uintptr) {
 	if !Active() {
